@@ -1461,12 +1461,10 @@ let rsq_new bsize vs =
         N.modulo v (Npos (XO (XO (XO (XO (XO (XO (XO (XO XH)))))))))) vs))
     (fun q -> rsq_from_qv bsize q)
 
-(** val rsq_default : rsq **)
+(** val rsq_default : n -> rsq outcome **)
 
-let rsq_default =
-  { rsq_qv = qvb_new; rsq_rs = { rs_superblocks = []; rs_samples =
-    ([] :: ([] :: ([] :: ([] :: [])))) }; rsq_occs_smaller =
-    (N0 :: (N0 :: (N0 :: (N0 :: (N0 :: []))))) }
+let rsq_default bsize =
+  rsq_from_qv bsize qvb_new
 
 (** val rsq_len : rsq -> n **)
 
@@ -1535,7 +1533,7 @@ let rsq_rank_unchecked bsize r symbol i =
 (** val rsq_rank : n -> rsq -> n -> n -> n option outcome **)
 
 let rsq_rank bsize r symbol i =
-  if N.ltb (rsq_len r) i
+  if (||) (N.ltb (Npos (XI XH)) symbol) (N.ltb (rsq_len r) i)
   then Val None
   else bind (rsq_rank_unchecked bsize r symbol i) (fun v -> Val (Some v))
 
@@ -1667,13 +1665,12 @@ let rsq_select bsize r symbol i =
 
 let rsq_select_unchecked bsize r symbol i =
   bind (odebug_assert (N.leb symbol (Npos (XI XH)))) (fun _ ->
-    bind (odebug_assert (N.ltb N0 i)) (fun _ ->
-      bind (rsq_occs r symbol) (fun o ->
-        bind
-          (odebug_assert (match o with
-                          | Some oc -> N.leb oc i
-                          | None -> true)) (fun _ ->
-          bind (rsq_select bsize r symbol i) ounwrap))))
+    bind (rsq_occs r symbol) (fun o ->
+      bind
+        (odebug_assert (match o with
+                        | Some oc -> N.ltb i oc
+                        | None -> false)) (fun _ ->
+        bind (rsq_select bsize r symbol i) ounwrap)))
 
 (** val mapo : ('a1 -> 'a2 outcome) -> 'a1 list -> 'a2 list outcome **)
 
@@ -1726,7 +1723,8 @@ let rec qwt_levels w bsize seq shift = function
 
 let qwt_new w bsize seq = match seq with
 | [] ->
-  Val { q_n = N0; q_n_levels = N0; q_sigma = N0; q_qvs = (rsq_default :: []) }
+  bind (rsq_default bsize) (fun d -> Val { q_n = N0; q_n_levels = N0;
+    q_sigma = N0; q_qvs = (d :: []) })
 | _ :: _ ->
   let sigma = maxN seq in
   let log_sigma = N.add (msb sigma) (Npos XH) in
